@@ -37,6 +37,7 @@ type Model struct {
 	woUndef    bool
 	objFor     func(m *Model, clean string) (*roObj, bool, bool) // (object, handled, exists)
 	strictPath bool                                               // paths are well-formed absolute paths
+	roOptional bool                                               // ro may or may not be held by the server (after a fault)
 	pre        string                                             // kind of the target before the request (mutating ops)
 	files      map[string][]byte                                  // expected content of files uploaded in this session
 }
@@ -217,6 +218,29 @@ func hexHead(b []byte) string {
 // Check validates the response to req in the current state and advances the state.
 // Returns ("", class) when admissible, else a description.
 func (m *Model) Check(req Req, resp []byte, closed bool) (why string, class string) {
+	if m.roOptional && req.Raw == nil {
+		switch req.Op {
+		case opReadFile, opReadFileCritical, opReadCD2048:
+			a := m.clone()
+			a.roOptional = false
+			if why, class := a.check(req, resp, closed); why == "" {
+				return "", class
+			}
+			b := m.clone()
+			b.roOptional, b.ro = false, nil
+			why, class := b.check(req, resp, closed)
+			if why == "" {
+				m.ro, m.roOptional = nil, false
+			}
+			return why, class
+		case opOpenFile:
+			m.roOptional = false
+		}
+	}
+	return m.check(req, resp, closed)
+}
+
+func (m *Model) check(req Req, resp []byte, closed bool) (why string, class string) {
 	bad := func(f string, a ...any) (string, string) { return fmt.Sprintf(f, a...), "bad:" + slug(f) }
 	if req.Raw != nil {
 		// malformed / truncated / unknown: only ends the connection, no stray bytes
@@ -903,4 +927,67 @@ func slug(f string) string {
 		}
 	}
 	return b.String()
+}
+
+// clone returns an independent copy of the model state.
+func (m *Model) clone() *Model {
+	c := *m
+	if m.cwd != nil {
+		cw := *m.cwd
+		cw.remaining = map[string]bool{}
+		for k, v := range m.cwd.remaining {
+			cw.remaining[k] = v
+		}
+		c.cwd = &cw
+	}
+	if m.files != nil {
+		c.files = map[string][]byte{}
+		for k, v := range m.files {
+			c.files[k] = v
+		}
+	}
+	return &c
+}
+
+// Fail advances the state as if req had been answered with its failure form (used under injected faults).
+func (m *Model) Fail(req Req) {
+	switch req.Op {
+	case opOpenFile:
+		m.ro = nil
+	case opOpenDir:
+		if m.cwd != nil {
+			m.cwd.optional = true
+			m.cwd.fuzzy = true
+		}
+	case opReadDirEntry, opReadDirEntryV2, opReadDir:
+		if m.cwd != nil {
+			m.cwd.optional = true
+			m.cwd.fuzzy = true
+		}
+	case opCreateFile:
+		if m.wo != "" {
+			delete(m.files, m.wo)
+		}
+		delete(m.files, m.real(req.Path))
+		m.wo = ""
+	case opWriteFile:
+		delete(m.files, m.wo)
+	}
+}
+
+// isFailureForm reports whether resp is the opcode's protocol failure answer.
+func isFailureForm(req Req, resp []byte) bool {
+	switch req.Op {
+	case opReadDirEntry:
+		return isEndMarker(resp, false)
+	case opReadDirEntryV2:
+		return isEndMarker(resp, true)
+	case opReadDir:
+		return len(resp) == 8 && be64(resp) == 0
+	case opWriteFile, opReadFile:
+		return len(resp) == 4 && int32(be32(resp)) == -1
+	case opGetDirSize:
+		return len(resp) == 8 && int64(be64(resp)) == -1
+	}
+	return failureForm(req.Op, resp)
 }
